@@ -43,6 +43,7 @@ CFMT_QUICK = ['s', '10s', '.3s', '5.2s', '9.9s', 'r', 'a', '12r', 'd', 'f', 'c',
 ETCS = [None, '', '..', 'ETC']
 EXPRS = list(U.EXPR_MARKED)
 MULTI = '<ab<c_D<'          # several marks: first, middle, last character
+NR = len(U.RICH) + 1
 CTXS = ['kw', 'mapping', 'client', 'callable', 'taintwrapper', 'in', 'let']
 
 
@@ -100,11 +101,11 @@ def values_for(tier, fam, mask=0):
     if tier == 'thorough':
         if fam == 'A':
             return [U.plain_value(p) for p in plain] + [U.rich_value(b) for b in rich] + [MULTI]
-        return [U.plain_value(mask % 7), U.rich_value(mask % 10), U.rich_value((mask + 5) % 10)]
+        return [U.plain_value(mask % 7), U.rich_value(mask % NR), U.rich_value((mask + 5) % NR)]
     if fam == 'A':
-        return [U.plain_value(0), U.plain_value(3 + mask % 4), U.rich_value(mask % 10),
-                U.rich_value((mask + 4) % 10), MULTI]
-    return [U.plain_value(mask % 7), U.rich_value((mask // 7) % 10)]
+        return [U.plain_value(0), U.plain_value(3 + mask % 4), U.rich_value(mask % NR),
+                U.rich_value((mask + 4) % NR), MULTI]
+    return [U.plain_value(mask % 7), U.rich_value((mask // 7) % NR)]
 
 
 def family_a(w, tier):
@@ -184,7 +185,7 @@ def family_c(w, tier):
                         w.case(fam='C', syntax='epfs' if (i // w.ctx.nshards) % 3 == 0 else 'dtml',
                                mods=mods, value=U.plain_value(pos), size=size, etc=etc, fmt=f,
                                wrap=bool(pos % 2))
-                    w.case(fam='C', syntax='dtml', mods=mods, value=U.rich_value(size % 10), size=size + 4,
+                    w.case(fam='C', syntax='dtml', mods=mods, value=U.rich_value(size % NR), size=size + 4,
                            etc=etc, fmt=f)
         if len(w.cache) > 2000:
             w.cache.clear()
